@@ -4,7 +4,8 @@
   on this model; WR.Props.C20 proves what holds and exhibits what does not):
 
     * identifier / name / string / url escaping           serializeIdentifier … serializeURL
-    * dimension: unit `e`, `E`, `e-…`, `E-…` is written `\65 …` (scientific-notation disambiguation)
+    * dimension: a unit starting with `e`/`E` that is that letter alone or goes on with `-` or a digit
+      gets its first letter written `\65 ` / `\45 ` (scientific-notation disambiguation)
     * separator `/**/` between two tokens whose serialization types are in the bad-pair table
       (the table is a parameter; the driver and the theorems use the one dumped from the code,
       WR.Gen.C20Pairs)
@@ -37,7 +38,7 @@ def escIdentStart (c : Char) : Str :=
   else if c = '\n' then ['\\', 'A', ' ']
   else if c = '\r' then ['\\', 'D', ' ']
   else if c = '\x0c' then ['\\', 'C', ' ']
-  else if isDigit c then '\\' :: hexUpper c.toNat
+  else if isDigit c then '\\' :: hexUpper c.toNat ++ [' ']
   else if c.toNat > 0x7F then [c]
   else ['\\', c]
 
@@ -70,6 +71,7 @@ def escUrl (c : Char) : Str :=
   else if c = '\x0c' then ['\\', 'C', ' ']
   else if c = '(' then ['\\', '(']
   else if c = ')' then ['\\', ')']
+  else if c.toNat ≤ 0x1F ∨ c.toNat = 0x7F then '\\' :: hexUpper c.toNat ++ [' ']
   else [c]
 
 def serializeUrl (v : Str) : Str := v.flatMap escUrl
@@ -94,13 +96,18 @@ def serType : Tok → Str
   | .block _ .curly _ => "{} block".toList
   | .func _ _ _ => "function".toList
 
-def startsWith (p s : Str) : Bool := p.isPrefixOf s
+/-- the code point after the leading `e`/`E` makes the unit read as scientific notation -/
+def expLike : Str → Bool
+  | [] => true
+  | d :: _ => d = '-' || isDigit d
 
 /-- the unit of a dimension -/
-def serializeUnit (u : Str) : Option Str :=
-  if u = ['e'] ∨ u = ['E'] ∨ startsWith ['e', '-'] u ∨ startsWith ['E', '-'] u then
-    some (['\\', '6', '5', ' '] ++ serializeName (u.drop 1))
-  else serializeIdentifier u
+def serializeUnit : Str → Option Str
+  | [] => none
+  | c :: rest =>
+    if (c = 'e' || c = 'E') && expLike rest then
+      some ((if c = 'e' then ['\\', '6', '5', ' '] else ['\\', '4', '5', ' ']) ++ serializeName rest)
+    else serializeIdentifier (c :: rest)
 
 /-- does the last-argument chain of a function end in an eof-in-string error? -/
 def endsInEofString : Nat → List Tok → Bool
